@@ -203,10 +203,12 @@ fn op_static(op: &str) -> Option<&'static str> {
   ALL_OPS.iter().find(|o| **o == op).copied()
 }
 
-/// Budget of the allocator seam for a world: a single request above max(4 MiB, 1024 x input) or more
+/// Budget of the allocator seam for a world: a single request above max(32 MiB, 1024 x input) or more
 /// than max(256 MiB, 2048 x input) live is "memory the input does not justify".
 pub fn arm_for(w: &World) {
-  let single = (4usize << 20).max(1024 * w.size());
+  // floor 32 MiB: the regex crate compiles within a documented, input-independent size limit (10 MiB, reached
+  // by doubling vectors), which a 40-byte pattern such as (a{1000}){1000} legitimately uses up
+  let single = (32usize << 20).max(1024 * w.size());
   alloc::arm(single, (256usize << 20).max(2048 * w.size()));
 }
 
@@ -330,7 +332,7 @@ pub fn build_world(seed: u64, idx: u64, out: &mut RunOut) -> World {
   }
   let dcfg = DocCfg::swarm(&mut rk);
   let enc = EncCfg::swarm(&mut rk);
-  let source = rk.weighted(&[4, 8, 3, 2, 1]);
+  let source = rk.weighted(&[4, 8, 3, 2, 1, 1]);
   match source {
     0 => {
       // valid data at rest: corpus
@@ -399,6 +401,16 @@ pub fn build_world(seed: u64, idx: u64, out: &mut RunOut) -> World {
       w.origin = "grammar".into();
       out.probe("src_grammar");
     }
+    5 => {
+      // a huge constant in the schema meets a construct that might iterate over its numeric value
+      let (schema, doc) = huge_const_case(&mut rw);
+      w.schema = schema.into_bytes();
+      w.json = Some(to_json(&doc).into_bytes());
+      w.cbor = Some(to_cbor_min(&doc));
+      w.csv = Some("1,a\n".to_string().into_bytes());
+      w.origin = "huge-constant".into();
+      out.probe("src_huge_constant");
+    }
     _ => {
       // nesting / size family within the property's bounds (depth <= 64, total <= 64 KiB)
       let f = *rw.pick(FAMILIES);
@@ -422,7 +434,7 @@ pub fn build_world(seed: u64, idx: u64, out: &mut RunOut) -> World {
     }
   }
   // faults on the data at rest
-  if source != 4 && rk.chance(2, 3) {
+  if source != 4 && source != 5 && rk.chance(2, 3) {
     let nf = rf.range(1, 3);
     let which = rf.below(4);
     let mut log = Vec::new();
